@@ -8,6 +8,8 @@ Line protocol for the timestamp models (domain `time`).
   time dec <track> <rate> <eq 0|1> <ts> <nowNs>  → pts <n> | none     GlobalDecoder.Decode
   time ntpenc <unixNs>                           → <uint64>           ntp.Encode
   time ntpdec <uint64>                           → <unixNs>           ntp.Decode
+  time fracfloat <n>                             → <fraction>         Encode's fractional field for ntp%10^9 = n,
+                                                                       computed on the binary64 model (float path)
   time fracsweep <start> <count>                 → <checksum>         fold over Encode's fractional field
                                                                        for ntp%10^9 = start … start+count-1
   time sinit <rate>                              → ok                 rtpsender.Sender
@@ -51,6 +53,10 @@ def mk : IO Handler := do
     | ["ntpdec", v] =>
       match v.toNat? with
       | some v => return toString (Ntp.decode v)
+      | none => return "bad-op"
+    | ["fracfloat", n] =>
+      match n.toNat? with
+      | some n => return toString (Ntp.encFracFloat n)
       | none => return "bad-op"
     | ["fracsweep", a, n] =>
       match a.toNat?, n.toNat? with
